@@ -216,8 +216,8 @@ class Unit:
         parts = [x.strip() for x in lines[0].strip()[len('//@fn '):].split('|')]
         spec.file, spec.container, spec.name = parts[0], parts[1], parts[2]
         if len(parts) > 3 and parts[3].startswith('closure'):
-            spec.closure = int(parts[3].split()[1])
-        spec.key = '%s::%s%s' % (spec.file, spec.name, ('#closure%d' % spec.closure) if spec.closure is not None else '')
+            spec.closure = [int(x) for x in parts[3].split()[1].split('.')]
+        spec.key = '%s::%s%s' % (spec.file, spec.name, ('#closure%s' % '.'.join(map(str, spec.closure))) if spec.closure is not None else '')
         cur = None  # list to append content lines to
         curloop = None
         for ln in lines[1:]:
@@ -422,10 +422,13 @@ class Unit:
             bopen, bclose = fn['bopen'], fn['bclose']
             cl_in_body = self.closures_in(text, mask, bopen + 1, bclose)
         else:
-            cls = self.closures_in(text, mask, fn['bopen'] + 1, fn['bclose'])
-            if spec.closure >= len(cls):
-                raise Undecided('lost anchor: closure %d of %s (found %d)' % (spec.closure, spec.name, len(cls)))
-            cstart, cend, cparams, bopen, bclose = cls[spec.closure]
+            lo_, hi_ = fn['bopen'] + 1, fn['bclose']
+            for depth_, k_ in enumerate(spec.closure):
+                cls = self.closures_in(text, mask, lo_, hi_)
+                if k_ >= len(cls):
+                    raise Undecided('lost anchor: closure %s of %s (found %d at depth %d)' % ('.'.join(map(str, spec.closure)), spec.name, len(cls), depth_))
+                cstart, cend, cparams, bopen, bclose = cls[k_]
+                lo_, hi_ = bopen + 1, bclose
             if spec.header is None:
                 raise Undecided('template error: closure fn needs //@header')
             sig = None
